@@ -56,6 +56,10 @@ pub fn total(ctx: &mut Ctx, id: &str, src: &str, c: &Cfg, range: Range, family: 
             None
         }
         Ok(_) => {
+            // the same call with the library's output verification switched on must return as well
+            if ctx.evals % 3 == 0 || family == "verified-literals" {
+                verified(ctx, id, src, c, range, family, family == "verified-literals");
+            }
             let ntok = lex::lex(src).map(|l| l.toks().count()).unwrap_or(1).max(1) as u64;
             let ratio = out.ticks / ntok;
             let e = ctx.counters.entry("max.ticks_per_token".to_string()).or_insert(0);
@@ -72,6 +76,34 @@ pub fn total(ctx: &mut Ctx, id: &str, src: &str, c: &Cfg, range: Range, family: 
             }
             Some(out.ticks)
         }
+    }
+}
+
+/// `format_code(.., OutputVerification::Full)` on an input the plain call formatted: it must not
+/// panic; `strict` (pinned literal programs, whose plain output C04 decodes) also rejects an error.
+pub fn verified(ctx: &mut Ctx, id: &str, src: &str, c: &Cfg, range: Range, family: &str, strict: bool) {
+    let o = ctx.eval_verified(&format!("{id}#verify"), src, c, range);
+    let case = || {
+        let mut v = case_json(id, src, c, range);
+        v["family"] = json!(family);
+        v["verify"] = json!(true);
+        v
+    };
+    match &o.result {
+        Err(FmtErr::Panic(m)) => {
+            let sg = format!("verify:{}", fmt::panic_signature(m));
+            ctx.finding("panic", &sg, &format!("format_code with OutputVerification::Full panicked at {}: {m}", fmt::last_panic_location()), case());
+        }
+        Err(FmtErr::Verify(m)) => {
+            ctx.count("verify.reported_difference");
+            if strict {
+                ctx.finding("verify-total", &format!("verify-error:{family}:{}", c.syntax), &format!("OutputVerification::Full rejected the output for a literal-only program: {m}"), case());
+            }
+        }
+        Err(FmtErr::Parse(m)) => {
+            ctx.finding("parse-agreement", &format!("verify:parse-error-on-parseable:{family}"), m, case());
+        }
+        Ok(_) => ctx.count("verify.ok"),
     }
 }
 
@@ -265,6 +297,35 @@ pub fn run_item(w: &Work, ctx: &mut Ctx, mut i: usize) {
             total(ctx, &format!("c07:pinned-invalid:{k}"), text, &Cfg::with_syntax(syntax), None, "pinned-invalid");
         }
     }
+    if i == 1 {
+        // literal-only programs of every dialect under OutputVerification::Full: each numeric
+        // spelling of C04's grammar and a few string forms, one per statement
+        for syntax in cfg::SYNTAXES {
+            let base = Cfg::with_syntax(syntax);
+            let mut prog = String::new();
+            let mut n = 0usize;
+            for s in crate::props::c04::number_spellings(syntax) {
+                let line = format!("local _ = {s}\n");
+                if fmt::parses(&line, &base) {
+                    prog.push_str(&line);
+                    n += 1;
+                }
+            }
+            for s in ["'a\\'b'", "\"\\z\n  x\"", "[==[\n]]]==]", "'\\u{10FFFF}'", "\"\\x41\\065\""] {
+                let line = format!("local _ = {s}\n");
+                if fmt::parses(&line, &base) {
+                    prog.push_str(&line);
+                    n += 1;
+                }
+            }
+            *ctx.counters.entry("verified_literal_statements".to_string()).or_insert(0) += n as u64;
+            for quote in cfg::QUOTES {
+                let mut c = base.clone();
+                c.quote_style = quote;
+                total(ctx, &format!("c07:verified-literals:{syntax}:{quote}"), &prog, &c, None, "verified-literals");
+            }
+        }
+    }
     if i < N_RAMPS {
         // item = ramp family x width (width index 0 is the family's original width)
         let wi = i / N_RAMP_FAMILIES;
@@ -358,5 +419,10 @@ pub fn run_item(w: &Work, ctx: &mut Ctx, mut i: usize) {
 pub fn replay(ctx: &mut Ctx, case: &serde_json::Value) {
     let src = case["src"].as_str().unwrap_or("");
     let c = Cfg::from_json(&case["cfg"]).unwrap_or_default();
+    if case["verify"].as_bool() == Some(true) {
+        let family = case["family"].as_str().unwrap_or("replay");
+        verified(ctx, "replay", src, &c, crate::ctx::range_from_json(&case["range"]), family, family == "verified-literals");
+        return;
+    }
     total(ctx, "replay", src, &c, crate::ctx::range_from_json(&case["range"]), case["family"].as_str().unwrap_or("replay"));
 }
